@@ -134,8 +134,14 @@ func Obj(id string, t int, depth int) tengo.Object {
 	case TMap, TImmMap:
 		n := vf.Choice(id+".mlen", W()+1)
 		m := map[string]tengo.Object{}
+		// the key set starts at "a" or at "b", so that two maps of the same
+		// size can have different keys
+		off := 0
+		if n > 0 {
+			off = vf.Choice(id+".koff", 2)
+		}
 		for k := 0; k < n; k++ {
-			m[mapKeys[k]] = elem(id+".v"+strconv.Itoa(k), depth-1)
+			m[mapKeys[(k+off)%len(mapKeys)]] = elem(id+".v"+strconv.Itoa(k), depth-1)
 		}
 		if t == TMap {
 			return &tengo.Map{Value: m}
